@@ -400,7 +400,8 @@ def build_fn(unit, item, imp, fnitem, spec: Fn, cover=False):
             sig = f"{head} -> ({spec.ret}: {ret}){after}"
             applied.append(("R13", f"-> {ret}", f"-> ({spec.ret}: {ret})"))
     # R17: items live in sibling modules, so private inherent/free fns are widened to pub(crate)
-    if (item.header is None or not re.search(r'\bfor\b', item.header)) and not (imp is not None and imp.kind == 'trait') \
+    _h = item.header_out or item.header
+    if (_h is None or not re.search(r'\bfor\b', _h)) and not (imp is not None and imp.kind == 'trait' and not item.header_out) \
             and not re.match(r'\s*pub\b', sig):
         sig = "pub(crate) " + sig.lstrip()
         applied.append(("R17", "private fn", "pub(crate) fn"))
@@ -620,6 +621,20 @@ def widen_fields(text):
 
 
 def fill(text, params):
+    if "//#if " in text:
+        out, stack = [], [True]
+        for line in text.split("\n"):
+            t = line.strip()
+            if t.startswith("//#if "):
+                stack.append(stack[-1] and bool(params.get(t[6:].strip())))
+            elif t == "//#else":
+                prev = stack.pop()
+                stack.append(stack[-1] and not prev)
+            elif t == "//#endif":
+                stack.pop()
+            elif stack[-1]:
+                out.append(line)
+        text = "\n".join(out)
     for k, v in params.items():
         text = text.replace("@" + k + "@", str(v))
     return text
@@ -653,7 +668,12 @@ def build_unit(unit: Unit, cover=False, prelude_dir=None, skip=()):
         found = [it for it in src(rf).all_items() if it.kind == rkind and it.name == rname]
         if len(found) != 1:
             raise LostAnchor(f"{rf} :: {rkind} {rname}: {len(found)} matches")
-        parts.append(f"\n// ===== verbatim {rf} :: {rkind} {rname} (R17: field visibility widened)\n" + widen_fields(found[0].text) + "\n")
+        rt = widen_fields(found[0].text)
+        for dname in getattr(unit, "raw_strip", ()):
+            rt = re.sub(r'(#\[derive\([^)]*?)\b' + dname + r'\s*,\s*', r'\1', rt)
+            rt = re.sub(r'(#\[derive\([^)]*?),\s*' + dname + r'\b', r'\1', rt)
+            rt = re.sub(r'#\[derive\(\s*' + dname + r'\s*\)\]', '', rt)
+        parts.append(f"\n// ===== verbatim {rf} :: {rkind} {rname} (R17: field visibility widened)\n" + rt + "\n")
     if unit.lemmas:
         parts.append("\n// ===== unit lemmas\n" + fill(unit.lemmas, unit.params) + "\n")
     k = 0
